@@ -266,3 +266,32 @@ class CallGraph:
                 continue
             todo.extend(self.edges[k])
         return seen
+
+
+def canon_test(node: ast.AST) -> str:
+    """orientation- and strictness-independent text of a simple size test: `2 > len(x)`, `len(x) <= 1`, `len(x) < 2` -> `len(x) < 2`;
+    `not len(x)`, `len(x) == 0` -> `len(x) < 1`; anything else: normalised source text"""
+    FLIP = {ast.Lt: ast.Gt, ast.Gt: ast.Lt, ast.LtE: ast.GtE, ast.GtE: ast.LtE, ast.Eq: ast.Eq, ast.NotEq: ast.NotEq}
+
+    def is_len(n):
+        return isinstance(n, ast.Call) and isinstance(n.func, ast.Name) and n.func.id == "len"
+
+    if isinstance(node, ast.UnaryOp) and isinstance(node.op, ast.Not) and is_len(node.operand):
+        return f"{ast.unparse(node.operand)} < 1"
+    if isinstance(node, ast.Compare) and len(node.ops) == 1:
+        l, op, r = node.left, type(node.ops[0]), node.comparators[0]
+        if not is_len(l) and is_len(r) and op in FLIP:
+            l, r, op = r, l, FLIP[op]
+        if is_len(l) and isinstance(r, ast.Constant) and isinstance(r.value, int) and not isinstance(r.value, bool):
+            k = r.value
+            if op is ast.Lt:
+                return f"{ast.unparse(l)} < {k}"
+            if op is ast.LtE:
+                return f"{ast.unparse(l)} < {k + 1}"
+            if op is ast.GtE:
+                return f"not {ast.unparse(l)} < {k}"
+            if op is ast.Gt:
+                return f"not {ast.unparse(l)} < {k + 1}"
+            if op is ast.Eq and k == 0:
+                return f"{ast.unparse(l)} < 1"
+    return " ".join(ast.unparse(node).split())
